@@ -1145,3 +1145,18 @@ SFS = "core_codemods/secure_flask_session_config.py"
 add("C13", "flask-app-name-recorded-only-on-permitted-lines", SFS,
     [("        if self.find_base_name(original_node.func) == \"flask.Flask\":\n            self._store_flask_app(original_node)", "        if not self.filter_by_path_includes_or_excludes(self.node_position(original_node)):\n            return updated_node\n        if self.find_base_name(original_node.func) == \"flask.Flask\":\n            self._store_flask_app(original_node)")],
     "fire", "R-GATE-NOT-OVER-STATE", "flask_app_name")
+BCM = "codemodder/codemods/base_codemod.py"
+add("C20", "pool-size-from-option-unvalidated", BCM,
+    [("        with ThreadPoolExecutor() as executor:", "        with ThreadPoolExecutor(max_workers=context.max_workers) as executor:")],
+    "fire", "R-WORKERS-VALIDATED", "max_workers-range")
+add("C20", "benign-pool-size-from-option-clamped", BCM,
+    [("        with ThreadPoolExecutor() as executor:", "        with ThreadPoolExecutor(max_workers=max(1, context.max_workers)) as executor:")],
+    "silent")
+PPW = "codemodder/dependency_management/pyproject_writer.py"
+add("C14", "poetry-requirement-assigned-over-existing-entry", PPW,
+    [("                pyproject[\"tool\"][\"poetry\"][\"dependencies\"].append(\n                    dep.requirement.name, str(dep.requirement.specifier)\n                )", "                pyproject[\"tool\"][\"poetry\"][\"dependencies\"][dep.requirement.name] = str(dep.requirement.specifier)")],
+    "fire", "R-MANIFEST-NO-OVERWRITE", "store[")
+add("C10", "unfixed-findings-filtered-on-the-way-to-the-report", CTXF,
+    [("unfixedFindings=self.get_unfixed_findings(codemod.id),", "unfixedFindings=_known_rules_only(self.get_unfixed_findings(codemod.id)),"),
+     ("class CodemodExecutionContext:", "def _known_rules_only(unfixed_findings):\n    return [f for f in unfixed_findings if f.rule.url]\n\n\nclass CodemodExecutionContext:")],
+    "fire", "R-REPORT-COMPLETE", "unfixedFindings")
